@@ -21,7 +21,7 @@ theorem poolValid_init (g : Graph) (cap init : ℚ) :
 
 /-- the stored cost of a walk that `follow` accepts is `routeCost` -/
 theorem ep_routeCost_of_follow (g : Graph) (cap init : ℚ) (r : List ℕ) (c : ℚ)
-    (h : follow g cap 0 r.tail 0 init 0 = some c) : routeCost g cap init r = c := by
+    (h : follow g cap 0 r.tail (g.lo 0) init 0 = some c) : routeCost g cap init r = c := by
   simp [routeCost, h]
 
 /-- (b) `add_route` on a fixed graph keeps the pool valid — for pools whose cost list is as long as the
